@@ -474,7 +474,8 @@ def random_action(ad, rng, base, rocks, kinds, fracs, allow_minc=True):
         if op == "add_block":
             c = [n for n in base if n not in liveset]
             if c and rks:
-                return {"op": op, "n": rng.choice(c), "r": rng.choice(rks), "v": 1000}
+                # mostly ordinary blocks; now and then an inactive one (zero volume) or a boundary block (above the atmosphere volume)
+                return {"op": op, "n": rng.choice(c), "r": rng.choice(rks), "v": rng.choice([1000] * 6 + [0, 200000])}
         if op == "delete_block" and live:
             return {"op": op, "n": rng.choice(live)}
         if op == "add_connection" and len(live) >= 2:
